@@ -369,8 +369,13 @@ def run(tier, seed):
     programs = []
     for i, lay in enumerate(("three", "one", "two", "deep")):
         programs.append(progs.base_program("c15b%d" % i, layout=lay, entry_data=(i % 2 == 1)))
+    # a data function that the evaluated function runs in a worker thread (handed by name to an untracked runner)
+    q = progs.base_program("c15t0", layout="three")
+    tb = gen.add_fn(q, q["_ids"]["mid"], "TB", const=48, data_path="/thread/b")
+    q["fns"][q["_ids"]["main"]]["stmts"].append(gen.s_ref(tb, runner="thread"))
+    programs.append(q)
     nrand = 8 if tier == "quick" else 60
-    while len(programs) < 4 + nrand:
+    while len(programs) < 5 + nrand:
         p = progs.random_program(rng, "c15r%d" % len(programs))
         if len(gen.kept_nodes(p)) >= 2:
             programs.append(p)
@@ -383,7 +388,7 @@ def run(tier, seed):
                 variants = [variants[(pi + k + seed) % len(variants)]] + ([variants[0]] if k in (1, 4) else [])
             for stages in variants:
                 for store_kind in ("memory", "local", "local_lru"):
-                    if tier == "quick" and (pi + k + len(store_kind)) % 3 == 0 and pi >= 4:
+                    if tier == "quick" and (pi + k + len(store_kind)) % 3 == 0 and pi >= 5:
                         continue
                     for populated in (False, True):
                         jobs.append((p0, p1, stages, k, store_kind, populated, (pi + k) % 2 == 0))
